@@ -65,6 +65,38 @@ def psub_atom(p, atom, q):
     return psubst(p, lambda a: q if a == atom else None)
 
 
+def prop_implies(premises, conclusions):
+    """propositional implication over the comparison atoms of the formulas (<= 8 atoms): every valuation that satisfies all
+    premises satisfies all conclusions"""
+    import itertools
+    atoms = []
+    def collect(t):
+        if t[0] == 'not':
+            collect(t[1])
+        elif t[0] == 'bool':
+            for x in t[2]:
+                collect(x)
+        elif t not in (TRUE, FALSE) and t not in atoms:
+            atoms.append(t)
+    for t in list(premises) + list(conclusions):
+        collect(t)
+    if len(atoms) > 8:
+        return False
+    def ev(t, val):
+        if t == TRUE: return True
+        if t == FALSE: return False
+        if t[0] == 'not': return not ev(t[1], val)
+        if t[0] == 'bool':
+            vs = [ev(x, val) for x in t[2]]
+            return all(vs) if t[1] == 'and' else any(vs)
+        return val[t]
+    for bits in itertools.product([False, True], repeat=len(atoms)):
+        val = dict(zip(atoms, bits))
+        if all(ev(p_, val) for p_ in premises) and not all(ev(c_, val) for c_ in conclusions):
+            return False
+    return True
+
+
 def unwrap_array(t):
     while t[0] == 'call' and show(t[1]) in ('np.array', 'np.asarray', 'list', 'np.asfarray', 'np.fromiter', 'numpy.fromiter', 'tuple') and len(t[2]) >= 1:
         t = t[2][0]
@@ -201,27 +233,46 @@ def run(rep, repo, tier):
     names = {n_t: 'n', s_t: 's'}
     # ---- paths: (guard, returned term) ----
     paths = []
+    def conj(g):
+        return [y for x in g[2] for y in conj(x)] if (g[0] == 'bool' and g[1] == 'and') else [g]
     def split(t, guards):
         if t[0] == 'ite':
-            split(t[2], guards + [t[1]])
-            split(t[3], guards + [NOT(t[1])])
+            split(t[2], guards + conj(t[1]))
+            split(t[3], guards + conj(simp(NOT(t[1]))))
         else:
             paths.append((guards, t))
-    split(rv, [])
+    def lift(t, depth=0):
+        # f(... (c ? a : b) ...)  ->  c ? f(... a ...) : f(... b ...): a list chosen by a condition and normalised afterwards
+        if depth > 4 or t[0] == 'ite':
+            return t
+        inner = [x for x in walk(t) if x[0] == 'ite' and x is not t]
+        if not inner:
+            return t
+        i0 = inner[0]
+        from ..canon import replace as _repl
+        return ('ite', i0[1], lift(_repl(t, i0, i0[2]), depth + 1), lift(_repl(t, i0, i0[3]), depth + 1))
+    def lift_all(t):
+        if t[0] == 'ite':
+            return ('ite', t[1], lift_all(t[2]), lift_all(t[3]))
+        return lift(t)
+    split(lift_all(rv), [])
     rep.count('return_paths', len(paths))
     for guards, t in paths:
         if any(NOT(g) in guards for g in guards):
             continue            # infeasible combination produced by merging early returns
-        if t == NONE:
-            # a path that RAISES returns nothing either, and is not a return of None: the raise effects' own path conditions
-            raised = False
+        # a path on which the function RAISES returns nothing and is not a return of None: the raise effects' own path conditions
+        raised = False
+        if t == NONE or contains(t, lambda y: y == NONE):
             for e_, ctx_ in iter_effects(effs):
                 if e_.kind == 'raise':
                     rc = [(c_.cond if br else NOT(c_.cond)) for c_, br in ctx_ if c_.kind == 'if']
                     if rc and all(any(g == r_ or simp(g) == simp(r_) for g in guards) for r_ in rc):
                         raised = True
-            if raised:
-                continue
+                    elif rc and prop_implies(guards, rc):
+                        raised = True
+        if raised:
+            continue
+        if t == NONE:
             rep.fail('C17.R2', f.where, 'the weight vector is returned on every path', got='no value is returned when ' + (' and '.join(show(g) for g in guards) or 'the function is called') + ' (numpy then draws uniformly: p=None)',
                      want='return weights / sum(weights)', construct='distribution not returned')
             continue
@@ -277,6 +328,8 @@ def check_path(rep, f, t, names, n_t, s_t, cond_txt, subst_s, n_is_one, unknown_
     if n_is_one:
         # special case for a single agent: the list must be [1]
         ok = lm.points.get(0) in (C(1), C(1.0)) and (not lm.ranges or True)
+        if not ok and not lm.points and not lm.ranges and lm.default in (C(1), C(1.0)) and lm.length in (C(1), n_t):
+            ok = True                  # np.ones(1) / [1.0] * n with n == 1
         rep.check(ok, 'C17.R1', w, 'a single agent gets the un-normalised weight 1 [%s]' % cond_txt, got=show(L)[:120], construct='single-agent list')
         return
     if lm.int_buffer and (lm.ranges or lm.points):
